@@ -15,6 +15,7 @@ def run(res, tier, replay):
                 "non-trivial = distinct scenario; ledger = live allocations + open handles after close/destroy, plus frees/closes of unknown or released objects")
     proofs_ok = vlib.coq_gate(res, "Properties_C20")
     robust.l2_szdd(res, tier, rng)
+    robust.l2_kwaj(res, tier, rng)
     sw = robust.Sweep(res, tier, rng)
     if sw.ok:
         n = robust.ledger_oracle(res, sw, "contract")
